@@ -38,7 +38,7 @@ CHECKS = {
     "C14": dict(
         technique="runtime monitor: cross-instance agreement over different histories, independent reference ring / list-slot oracle, before/after disruption comparison on real selector instances",
         text="Target endpoint sets are reached through 3..6 different Refresh/Add/Remove histories on separate real selector instances; all instances must agree on every probed code (every ring point and its +-1 neighbours, 0, 2^32-1, random) and with an independently computed Ketama/default ring where that is unambiguous; removing/adding an endpoint may move only its own codes; mod-hash must map h to slot h mod N of the installed list and, weighted, to a cycle with the formula's counts and period identical across histories. Sets around hosts with colliding virtual points (birthday search in a fixed 3000-host universe) are probed and reported per colliding pair.",
-        note="The 2^32 code space is sampled at the points where the mapping can change. End-to-end routing of a call carrying a hash code is added with the RPC world (see DESIGN.md). 12 colliding host pairs are recorded as open known findings.",
+        note="The 2^32 code space is sampled at the points where the mapping can change. An end-to-end phase sends real calls with a hash code in the context to one scripted server per endpoint and compares the receiving server with the prediction. 12 colliding host pairs are recorded as open known findings.",
         design="DESIGN.md §4 C14"),
     "C03": dict(
         technique="runtime monitor: independent schema-directed reference decoder + canonical-form checker over encodings produced by the real generated code for every struct type in the tree",
